@@ -853,6 +853,10 @@ func (t *tokenizer) skipCommentsHandler() (bool, error) {
 	case '/':
 		return true, t.skipSingleLineComment()
 	case '*':
+		// Consume the '*' of the opener, or "/*/" would count as a complete comment.
+		if _, err := t.read(); err != nil {
+			return false, err
+		}
 		return true, t.skipBlockComment()
 	default:
 		return false, nil
